@@ -11,6 +11,7 @@ import (
 	"math/big"
 	"strings"
 
+	"golang.org/x/tools/go/packages"
 	"golang.org/x/tools/go/ssa"
 )
 
@@ -338,20 +339,9 @@ func init() {
 		return boolVal(r), st
 	})
 	reg("bytes.Compare", nil, func(fr *Frame, st *State, a []*Val, cc *ssa.CallCommon, pos token.Pos) (*Val, *State) {
-		// lexicographic order as an uninterpreted total preorder over (content, off, len) views
 		arr := st.heapGet("S:byte", SArr(SInt, SArr(SInt, SInt)))
 		x, y := a[0], a[1]
-		vx := App("bytesview", SInt, Select(arr, x.X), x.Off, x.Len)
-		vy := App("bytesview", SInt, Select(arr, y.X), y.Off, y.Len)
-		r := App("bytes.cmp", SInt, vx, vy)
-		c := fr.C
-		c.addFact(And(Le(Num(-1), r), Le(r, Num(1))))
-		c.addFact(Eq(App("bytes.cmp", SInt, vy, vx), Neg(r)))
-		c.addFact(Implies(Eq(vx, vy), Eq(r, Num(0))))
-		// r == 0 iff equal contents
-		q := BoundVar("j", SInt)
-		same := And(Eq(x.Len, y.Len), Forall([]*Term{q}, Implies(And(Le(Num(0), q), Lt(q, x.Len)), Eq(Select(Select(arr, x.X), Add(x.Off, q)), Select(Select(arr, y.X), Add(y.Off, q))))))
-		c.addFact(Eq(Eq(r, Num(0)), same))
+		r := fr.C.bytesCmp(st, bview{Select(arr, x.X), x.Off, x.Len}, bview{Select(arr, y.X), y.Off, y.Len})
 		return intVal(res0(cc), r), st
 	})
 }
@@ -412,6 +402,9 @@ func (c *Ctx) findGlobal(root string) *ssa.Global {
 }
 
 func (c *Ctx) constGlobalValue(g *ssa.Global, name string, t types.Type) *Val {
+	if v := c.constCompositeGlobal(g, name, t); v != nil {
+		return v
+	}
 	init := c.P.GlobalInit[g]
 	negID := func() *Term { return Num(-int64(1000 + c.typeTag("global:"+name))) }
 	switch x := init.(type) {
@@ -497,13 +490,14 @@ func freshValNamed(t types.Type, name string, facts *[]*Term) *Val {
 	return &Val{K: kindOf(t), T: t, X: x}
 }
 
-// constCompositeGlobal recognises `var X = []T{c0, c1, ...}` / `[N]T{...}` with constant integer elements, from the syntax.
+// constCompositeGlobal evaluates the syntactic initialiser of a constant global: constants, other constant globals,
+// composite literals of those, big.NewInt(const), errors.New(...), conversions.
 func (c *Ctx) constCompositeGlobal(g *ssa.Global, name string, t types.Type) *Val {
 	pkg := c.P.PkgByPath[g.Pkg.Pkg.Path()]
 	if pkg == nil {
 		return nil
 	}
-	var lit *ast.CompositeLit
+	var initExpr ast.Expr
 	for _, f := range pkg.Syntax {
 		for _, d := range f.Decls {
 			gd, ok := d.(*ast.GenDecl)
@@ -513,56 +507,176 @@ func (c *Ctx) constCompositeGlobal(g *ssa.Global, name string, t types.Type) *Va
 			for _, sp := range gd.Specs {
 				vs := sp.(*ast.ValueSpec)
 				for i, n := range vs.Names {
-					if n.Name == g.Name() && i < len(vs.Values) {
-						if cl, ok := vs.Values[i].(*ast.CompositeLit); ok {
-							lit = cl
+					if n.Name == g.Name() && pkg.TypesInfo.Defs[n] != nil && pkg.TypesInfo.Defs[n].Parent() == pkg.Types.Scope() {
+						if i < len(vs.Values) && len(vs.Values) == len(vs.Names) {
+							initExpr = vs.Values[i]
+						} else if len(vs.Values) == 0 {
+							return zeroVal(t) // declared without initialiser
 						}
 					}
 				}
 			}
 		}
 	}
-	if lit == nil {
+	if initExpr == nil {
 		return nil
 	}
-	var et types.Type
-	switch u := under(t).(type) {
-	case *types.Slice:
-		et = u.Elem()
-	case *types.Array:
-		et = u.Elem()
-	default:
+	return c.evalInitExpr(initExpr, pkg, t, name, 0)
+}
+
+func (c *Ctx) evalInitExpr(e ast.Expr, pkg *packages.Package, t types.Type, name string, depth int) *Val {
+	if depth > 6 {
 		return nil
 	}
-	if kindOf(et) != KInt {
+	info := pkg.TypesInfo
+	if tv, ok := info.Types[e]; ok && tv.Value != nil {
+		switch tv.Value.Kind() {
+		case constant.Int:
+			b, _ := new(big.Int).SetString(tv.Value.ExactString(), 10)
+			if kindOf(t) == KInt {
+				return &Val{K: KInt, T: t, X: NumB(b)}
+			}
+		case constant.Bool:
+			return boolVal(Bool(constant.BoolVal(tv.Value)))
+		case constant.String:
+			if kindOf(t) == KStr {
+				return &Val{K: KStr, T: t, X: c.strLit(constant.StringVal(tv.Value))}
+			}
+		case constant.Float:
+			if kindOf(t) == KInt {
+				if i, ok := constant.Int64Val(constant.ToInt(tv.Value)); ok {
+					return &Val{K: KInt, T: t, X: Num(i)}
+				}
+			}
+		}
 		return nil
 	}
-	content := ConstArr(SArr(SInt, SInt), Num(0))
-	idx := int64(0)
-	for _, el := range lit.Elts {
-		if kv, ok := el.(*ast.KeyValueExpr); ok {
-			tv := pkg.TypesInfo.Types[kv.Key]
-			if tv.Value == nil {
+	switch x := e.(type) {
+	case *ast.ParenExpr:
+		return c.evalInitExpr(x.X, pkg, t, name, depth+1)
+	case *ast.Ident, *ast.SelectorExpr:
+		var obj types.Object
+		if id, ok := x.(*ast.Ident); ok {
+			obj = info.Uses[id]
+		} else {
+			obj = info.Uses[x.(*ast.SelectorExpr).Sel]
+		}
+		if v, ok := obj.(*types.Var); ok && v.Pkg() != nil && v.Parent() == v.Pkg().Scope() {
+			if sp := c.P.SSAPkg[v.Pkg().Path()]; sp != nil {
+				if og, ok := sp.Members[v.Name()].(*ssa.Global); ok && !c.P.MutGlobals[og] && inModule(v.Pkg().Path()) {
+					if cached, ok := globalCache[og]; ok {
+						return cached
+					}
+					oname := strings.TrimPrefix(v.Pkg().Path()+"."+v.Name(), modPath+"/")
+					ov := c.constGlobalValue(og, oname, v.Type())
+					globalCache[og] = ov
+					c.ConstGlobals[oname] = true
+					return ov
+				}
+			}
+		}
+		return nil
+	case *ast.CompositeLit:
+		switch u := under(t).(type) {
+		case *types.Struct:
+			v := zeroVal(t)
+			for i, el := range x.Elts {
+				fi := i
+				val := el
+				if kv, ok := el.(*ast.KeyValueExpr); ok {
+					kn := kv.Key.(*ast.Ident).Name
+					fi = -1
+					for k := 0; k < u.NumFields(); k++ {
+						if u.Field(k).Name() == kn {
+							fi = k
+						}
+					}
+					val = kv.Value
+				}
+				if fi < 0 || fi >= u.NumFields() {
+					return nil
+				}
+				fv := c.evalInitExpr(val, pkg, u.Field(fi).Type(), name+"."+u.Field(fi).Name(), depth+1)
+				if fv == nil {
+					var facts []*Term
+					fv = freshValNamed(u.Field(fi).Type(), "gval!"+name+"."+u.Field(fi).Name(), &facts)
+					for _, f := range facts {
+						c.addFact(f)
+					}
+				}
+				v.Fs[fi] = fv
+			}
+			return v
+		case *types.Array, *types.Slice:
+			var et types.Type
+			if a, ok := u.(*types.Array); ok {
+				et = a.Elem()
+			} else {
+				et = u.(*types.Slice).Elem()
+			}
+			if kindOf(et) != KInt {
 				return nil
 			}
-			k, _ := constant.Int64Val(tv.Value)
-			idx = k
-			el = kv.Value
+			content := ConstArr(SArr(SInt, SInt), Num(0))
+			idx := int64(0)
+			for _, el := range x.Elts {
+				if kv, ok := el.(*ast.KeyValueExpr); ok {
+					tv := info.Types[kv.Key]
+					if tv.Value == nil {
+						return nil
+					}
+					k, _ := constant.Int64Val(tv.Value)
+					idx = k
+					el = kv.Value
+				}
+				ev := c.evalInitExpr(el, pkg, et, name, depth+1)
+				if ev == nil || !ev.X.IsConst() {
+					return nil
+				}
+				content = Store(content, Num(idx), ev.X)
+				idx++
+			}
+			if _, ok := u.(*types.Array); ok {
+				return &Val{K: KArr, T: t, X: content}
+			}
+			ref := Num(-int64(1000 + c.typeTag("global:"+name)))
+			constSlices[ref.Val.Int64()] = content
+			return &Val{K: KSlice, T: t, X: ref, Off: Num(0), Len: Num(idx), Cap: Num(idx)}
 		}
-		tv := pkg.TypesInfo.Types[el]
-		if tv.Value == nil || tv.Value.Kind() != constant.Int {
+	case *ast.CallExpr:
+		// conversion T(x)
+		if tv, ok := info.Types[x.Fun]; ok && tv.IsType() && len(x.Args) == 1 {
+			inner := c.evalInitExpr(x.Args[0], pkg, info.Types[x.Args[0]].Type, name, depth+1)
+			if inner != nil && kindOf(t) == KInt && inner.K == KInt {
+				return &Val{K: KInt, T: t, X: wrap(inner.X, t)}
+			}
 			return nil
 		}
-		b, _ := new(big.Int).SetString(tv.Value.ExactString(), 10)
-		content = Store(content, Num(idx), NumB(b))
-		idx++
+		fn := ""
+		switch f := x.Fun.(type) {
+		case *ast.SelectorExpr:
+			if o, ok := info.Uses[f.Sel].(*types.Func); ok && o.Pkg() != nil {
+				fn = o.Pkg().Path() + "." + o.Name()
+			}
+		case *ast.Ident:
+			if o, ok := info.Uses[f].(*types.Func); ok && o.Pkg() != nil {
+				fn = o.Pkg().Path() + "." + o.Name()
+			}
+		}
+		negID := func() *Term { return Num(-int64(1000 + c.typeTag("global:"+name))) }
+		switch fn {
+		case "math/big.NewInt":
+			if tv := info.Types[x.Args[0]]; tv.Value != nil {
+				b, _ := new(big.Int).SetString(constant.ToInt(tv.Value).ExactString(), 10)
+				ref := negID()
+				bigConsts[ref.Val.Int64()] = NumB(b)
+				return mkPtr(t, ref)
+			}
+		case "errors.New", "fmt.Errorf", "github.com/pkg/errors.New", "github.com/pkg/errors.Errorf":
+			return &Val{K: KIface, T: t, X: negID()}
+		}
 	}
-	if _, ok := under(t).(*types.Array); ok {
-		return &Val{K: KArr, T: t, X: content}
-	}
-	ref := Num(-int64(1000 + c.typeTag("global:"+name)))
-	constSlices[ref.Val.Int64()] = content
-	return &Val{K: KSlice, T: t, X: ref, Off: Num(0), Len: Num(idx), Cap: Num(idx)}
+	return nil
 }
 
 func init() {
